@@ -96,6 +96,19 @@ case("size", "Trace_Size", {}, [
     {"ev": "file", "light": False, "constant": True, "enc": [[[0, 0], 16, [0, 0]]], "fin": {"bytes": [0, 60], "samples": [0, 16], "seen": True}},
 ], {"lines": [2, 4]})
 
+# ---- Trace_Sniff (growth): a PNG header reported with the right / a wrong width, a palette count off by one, a refused valid GIF
+_png = [137, 80, 78, 71, 13, 10, 26, 10, 0, 0, 0, 13, 73, 72, 68, 82, 0, 0, 1, 0, 0, 0, 0, 32, 8, 3, 0, 0, 0, 1, 2, 3, 4,
+        0, 0, 0, 6, 80, 76, 84, 69, 1, 2, 3, 4, 5, 6, 0, 0, 0, 0]
+_gif = [71, 73, 70, 56, 57, 97, 32, 3, 88, 2, 0xF7, 0, 0]
+case("sniff", "Trace_Sniff", {}, [
+    {"ev": "sniff", "id": 1, "class": "png", "bytes": _png, "ret": "ok", "mime": "image/png", "width": [0, 256], "height": [0, 32], "depth": 0, "colors": 2},
+    {"ev": "sniff", "id": 2, "class": "png", "bytes": _png, "ret": "ok", "mime": "image/png", "width": [0, 255], "height": [0, 32], "depth": 0, "colors": 2},
+    {"ev": "sniff", "id": 3, "class": "png", "bytes": _png, "ret": "ok", "mime": "image/png", "width": [0, 256], "height": [0, 32], "depth": 24, "colors": 3},
+    {"ev": "sniff", "id": 4, "class": "gif", "bytes": _gif, "ret": "ok", "mime": "image/gif", "width": [0, 800], "height": [0, 600], "depth": 0, "colors": 256},
+    {"ev": "sniff", "id": 5, "class": "gif", "bytes": _gif, "ret": "err", "mime": "", "width": [0, 0], "height": [0, 0], "depth": 0, "colors": 0},
+    {"ev": "sniff", "id": 6, "class": "other", "bytes": [1, 2, 3], "ret": "ok", "mime": "image/png", "width": [0, 1], "height": [0, 1], "depth": 8, "colors": 0},
+], {"ids": [2, 3, 5, 6]})
+
 
 def run(pid):
     wd = workdir("selftest")
